@@ -433,6 +433,29 @@ func c18(x *mon.Ctx) {
 			}
 			x.Note("default-opts-nonce-bitflip", c.Param, s != nil, false, s == nil && e != nil)
 		}
+		{ // one caller customises the verification options it got from TdxDefaultOpts IN PLACE (its own root, its own time);
+			// a later caller's untouched defaults must still mean "Intel's root": our re-signed quote does not verify under them
+			c := base.Case(world.LBase, "default-opts-independent", "")
+			vo, _ := mon.Options(c)
+			m := mon.MessageFor("built", c.Quote)
+			o1 := rtmr.TdxDefaultOpts(sq.ReportData)
+			var okFirst, leaked bool
+			if o1.Verification != nil {
+				o1.Verification.TrustedRoots, o1.Verification.Now, o1.Verification.Getter = vo.TrustedRoots, vo.Now, vo.Getter
+				s1, e1 := rtmr.ParseCcelWithTdQuote(ccelData, ccelTable, m, &o1)
+				okFirst = s1 != nil && e1 == nil
+				o2 := rtmr.TdxDefaultOpts(sq.ReportData)
+				s2, e2 := rtmr.ParseCcelWithTdQuote(ccelData, ccelTable, m, &o2)
+				leaked = s2 != nil || e2 == nil
+				if leaked {
+					x.Violation("default-opts-independent", "", "a quote signed under a private PKI yields a state through UNTOUCHED default options after another caller had set its private root on the options it got from TdxDefaultOpts: the defaults are shared between callers", "none", "")
+				}
+			}
+			if !okFirst {
+				x.Broken("default-opts-independent: the customised default options do not accept the re-signed quote")
+			}
+			x.Note("default-opts-independent", "", false, false, okFirst && !leaked)
+		}
 		{ // the right nonce through the default policy, with our verification options
 			o := rtmr.TdxDefaultOpts(sq.ReportData)
 			c := base.Case(world.LBase, "default-opts-nonce", "right-nonce")
@@ -447,6 +470,7 @@ func c18(x *mon.Ctx) {
 	}
 	x.Require("twin", 3, 0, 3)
 	x.Require("extended-log/twin", 3, 0, 3)
+	x.Require("default-opts-independent", 0, 0, 1)
 	x.Require("extended-log/rtmr3-bitflip", 0, 3*48, 3*48)
 	x.Require("verify-fault", 0, 75, 75)
 	x.Require("policy-mismatch", 0, 30, 30)
